@@ -68,7 +68,7 @@ pub fn is_child() -> bool {
 pub fn note_panic(pi: &PanicInfo) {
     if let Ok(mut g) = PROGRESS.try_lock() {
         if let Some(p) = g.as_mut() {
-            p.panic = format!("{} | {}", pi.site(), pi.msg_class());
+            p.panic = format!("{} {} | {}", pi.site(), pi.msg_class(), pi.msg);
             flush(p);
         }
     }
